@@ -29,6 +29,12 @@ import dns.zone
 
 from harness.core import VERIF, Ctx, enc_labels
 
+try:
+    from harness.core import Stalled
+except ImportError:      # older core
+    class Stalled(BaseException):
+        pass
+
 RULE = (
     "histories are generated from one SplitMix64 state: zone class (plain / versioned / B-tree) x relativize on/off x "
     "writer/reader; an initial zone of 0..8 rdatasets over 6 owner names (with case variants, relative or absolute "
@@ -486,6 +492,20 @@ def call_op(txn, hooks, op):
     if k == "rollback":
         txn.rollback()
         return "ok"
+    if k == "cfail":
+        # commit() while a callback of the commit path raises: the versioned / B-tree zone's pruning policy
+        z = txn.manager
+        exc_cls = hooks.exc_cls
+
+        def policy(zone, version):
+            raise exc_cls()
+
+        z.set_pruning_policy(policy)
+        try:
+            txn.commit()
+        finally:
+            z.set_pruning_policy(None)
+        return "ok"
     raise ValueError(k)
 
 
@@ -509,7 +529,7 @@ def run_impl(z, c, ops, exc, uncaught_last=False, log=None, hard=False):
                     try:
                         trace.append(call_op(txn, hooks, op))
                     except BaseException as e:
-                        if isinstance(e, Hang):
+                        if isinstance(e, (Hang, Stalled)):
                             raise
                         trace.append("err:" + family(e))
                         raise
@@ -630,6 +650,13 @@ class Ref:
             self.ended = True
             if k == "commit" and not self.ro and self.touched:
                 self.zone = dict(self.ver)
+            return "ok"
+        if k == "cfail":
+            if self.ended:
+                raise RefErr("AlreadyEnded")
+            self.ended = True
+            if not self.ro and self.touched:
+                raise RefErr("Veto")        # the commit fails: nothing is published
             return "ok"
         if self.ended:
             raise RefErr("AlreadyEnded")
@@ -936,8 +963,14 @@ def eval_hist(ctx: Ctx, c: dict):
     salt = c.get("salt", 0)
     indices = range(len(ops) + 1)
     for kidx in indices:
-        style = (kidx + salt) % 3
-        if style == 1 and kidx < len(ops):
+        style = (kidx + salt) % (3 if c["cls"] == "plain" else 4)
+        if style == 3:
+            # the commit itself fails: a callback of the commit path (pruning policy) raises
+            ops_k = ops[:kidx] + [["cfail"], ["get", hexl(()), A, 0]]
+            trace = run_impl(z, c, ops_k, False, hard=(kidx % 2 == 1))
+            line_ops, exc = ops_k, False
+            ctx.count("abort.commit-fails")
+        elif style == 1 and kidx < len(ops):
             # raising hook on operation kidx (uncaught); if the op does not raise, raise in the body
             ops_k = ops[:kidx] + [veto_variant(ops[kidx])]
             trace = run_impl(z, c, ops_k, True, uncaught_last=True, hard=(kidx % 2 == 1))
@@ -958,7 +991,8 @@ def eval_hist(ctx: Ctx, c: dict):
         # oracle: unchanged, unless an explicit commit was executed before the abort
         if not any(o[0] == "commit" for o in line_ops):
             if post != pre:
-                how = ["exception raised in the with body", "exception raised by a check hook", "explicit rollback"][style]
+                how = ["exception raised in the with body", "exception raised by a check hook", "explicit rollback",
+                       "a commit that failed because the pruning policy raised"][style]
                 ctx.fail(f"C10/abort/zone-changed/{c['cls']}",
                          f"after {kidx} operations and {how} the zone is {post}, before the transaction it was {pre}", dict(rep, abort_index=kidx))
         elif wellformed(c):
@@ -979,6 +1013,13 @@ def eval_hist(ctx: Ctx, c: dict):
                 if got != expect or empties:
                     ctx.fail(f"C10/abort/zone-differs-after-explicit-commit/{c['cls']}",
                              f"after {kidx} operations (one an explicit commit) and an abort the zone is {got} (empty nodes {empties}), the reference model says {expect}", dict(rep, abort_index=kidx))
+        if style == 3 and not any(o[0] == "commit" for o in line_ops):
+            # every read route, and a reader, must still show the old content
+            prob = zone_read_routes(z, pre)
+            rdr = dump_reader(z)
+            if prob or rdr != pre:
+                ctx.fail(f"C10/abort/read-routes-disagree-after-failed-commit/{c['cls']}",
+                         prob or f"after a failed commit zone.nodes is {post} but a reader iterates {rdr}", dict(rep, abort_index=kidx))
         if post != pre:
             z = fresh()
 
@@ -1322,7 +1363,7 @@ def gen_hist(rng, malformed=False):
     c["ops"] = gen_ops(rng, c, ref, nops, policy, malformed)
     if malformed:
         c["malformed"] = 1
-    elif rng.chance(1, 3) and c["ro"] != 1 and not any(o[0] in ("commit", "rollback") for o in c["ops"]):
+    elif rng.chance(1, 3) and c["ro"] != 1 and not any(o[0] in ("commit", "rollback", "cfail") for o in c["ops"]):
         # a second transaction on what the first one committed
         ref.leave(False)
         ref2 = Ref(dict(c, ro=0))
@@ -1455,6 +1496,8 @@ def gen_ops(rng, c, ref, nops, policy, malformed):
             op = ["dump"]
         elif x < 99:
             op = ["commit"] if rng.chance(1, 2) else ["rollback"]
+            if c["cls"] != "plain" and rng.chance(1, 3):
+                op = ["cfail"]
         else:
             op = ["get", odd_name(rng), t, cv] if rng.chance(1, 2) else ["get", owner, 0, 0]
         if op[0] in ("add", "rep", "del", "dex") and rng.chance(1, 40):
